@@ -1651,6 +1651,9 @@ class TeX(object):
                 for t in self.itertokens():
                     num = number(sign * ord(t))
                     break
+                # a character constant is followed by one optional space
+                if optspace:
+                    self.readOneOptionalSpace()
             break
         ParameterCommand.enable()
         if num is not None:
